@@ -538,6 +538,13 @@ func c13Run(c *Ctx) {
 			}
 			s = string(b)
 		}
+		ws := []string{" ", "\n", "\t", "  "}
+		if r.Intn(3) == 0 {
+			s = pick(r, ws) + s
+		}
+		if r.Intn(3) == 0 {
+			s += pick(r, ws)
+		}
 		c.Do("lenient", c13Lenient{Data: g.Doc(r), S: s})
 	}
 	if !c.searchMode {
